@@ -175,6 +175,7 @@ func main() {
 	sum := hutil.NewSummary("C18", seed,
 		"sequential: random Add/Ready sequences (length 0-14, 1-5 names, re-registration and ready-marks of unregistered names), one handler request + IsReady after every op; "+
 			"concurrent: a status request paused at its Len and Iterate lock acquisitions with stores run in between; "+
+			"writers: a registration / ready-mark paused before each of its lock acquisitions while one or two others (same or other component) run completely, then IsReady, WaitForReady and /readyz against the sequential model for some order; "+
 			"non-trivial = sequence touches >=2 names and passes through both a ready and a not-ready answer; distinct by op sequence")
 
 	if *replay != "" {
@@ -380,6 +381,8 @@ func main() {
 		sum.Count("poll:"+fmt.Sprint(pre, o), paused)
 		sum.Dist("poll_during_store")
 	}
+	// ---- two writers overlapping (see writers.go) ----
+	writersStage(sum, ctl, r, *nc)
 	common.VerifHook = nil
 
 	// ---- WaitForReady ----
@@ -459,6 +462,9 @@ func doReplay(path string) int {
 			Mid  []op   `json:"stores_while_paused"`
 			K    int    `json:"paused_before_lock_index"`
 			St   *op    `json:"store"`
+			Vic  *op    `json:"victim"`
+			Oth  []op   `json:"run_while_paused"`
+			Dw   bool   `json:"dwell"`
 		} `json:"replay"`
 	}
 	if err := json.Unmarshal(raw, &rp); err != nil {
@@ -543,6 +549,12 @@ func doReplay(path string) int {
 		}
 		fmt.Println("not reproduced")
 		return 0
+	case "writers":
+		if rp.Replay.Vic == nil {
+			fmt.Println("replay carries no victim call")
+			return 2
+		}
+		return replayWriters(wwCase{Mode: "writers", Pre: rp.Replay.Pre, Victim: *rp.Replay.Vic, K: rp.Replay.K, Others: rp.Replay.Oth, Dwell: rp.Replay.Dw})
 	default:
 		fmt.Println("unknown replay mode", rp.Replay.Mode)
 		return 2
